@@ -7,6 +7,8 @@
   Queries are 1-based as in the C++ interface.
 -/
 import Gama.Lemmas.Ls.EnvCofactor
+import Gama.Lemmas.Ls.EnvQbb
+import Gama.Lemmas.LS.Rank
 import Gama.Lemmas.Ls.EnvExamples
 import Gama.Lemmas.LS.GInverse
 namespace Gama.Props.C03
@@ -72,15 +74,85 @@ theorem C03_envelope_redundancy (m n : ℕ) (At : DMat K) (hu : IsUnit (NO m n A
   simp only [Finset.sum_const, Finset.card_univ, Fintype.card_fin, nsmul_eq_mul, mul_one]
   rw [← ht]; rfl
 
-/-
-  FULL STATEMENT (singular case), not yet proved:  for an unambiguous problem with defect > 0
-  and a regularisation subset that resolves the defect, the matrix `Q(i,j) = q_xx(i+1,j+1)`
-  (`Env.qxxSing`: `Σ_k a_k b_k / d_k`, `a = L⁻¹ T_row(i)`) is `T Q0 Tᵀ` with
-  `Q0 = L⁻ᵀ D⁺ L⁻¹`, `T = I − G G_Sᵀ`, symmetric, `N Q N = N`, `Q N Q = Q`; `q_bb = Ã Q0 Ãᵀ`.
-  What is proved for the singular case: the factorisation `N = L D Lᵀ` with zero columns on
-  zero pivots (`C01_envelope_factorisation`) from which `Q0 N Q0 = Q0`, `N Q0 N = N` follow by
-  the triangular argument of `solve_spec`; the Gram–Schmidt part is missing (see C01).
--/
+/-- **C03 (envelope, defect > 0)**: for an unambiguous singular problem on which `unknowns()`
+    answers (the regularisation resolves the defect, `C02_refusal_env`), the values `q_xx(i,j)` for
+    ALL index pairs form a symmetric matrix `Q` with `N Q N = N` and `Q N Q = Q`, `N = ÃᵀÃ = AᵀPA`
+    (`Q = T Q0 Tᵀ`, `Q0 = L⁻ᵀD⁺L⁻¹`, `T = I − G G_Sᵀ` the `S`-projector of the configured
+    regularisation: `Lemmas/Ls/EnvQsing.lean`) -/
+theorem C03_envelope_singular (hsq : IsSqrt sq) (tol stol : K) (m n : ℕ) (A : DMat K) (b : Array K)
+    (At : DMat K) (bt : Array K) (reg : Reg) (o : EnvOrd) (hO : OrdOK n o)
+    (hU : FactUnambiguous sq tol m n At bt o) (htol : 0 < tol) (hstol : 0 < stol)
+    (hSlt : ∀ k ∈ regList n o reg, k < n)
+    (hd : (@envCore K (fieldScalar sq) tol stol m n A b At bt reg o).defect ≠ 0) {x : Array K}
+    (hx : (@envCore K (fieldScalar sq) tol stol m n A b At bt reg o).x = .ok x) :
+    ∃ Q : Matrix (Fin n) (Fin n) K,
+      (∀ i j : Fin n, (@envCore K (fieldScalar sq) tol stol m n A b At bt reg o).qxx (i + 1) (j + 1) = .ok (Q i j))
+      ∧ Qᵀ = Q ∧ NO m n At * Q * NO m n At = NO m n At ∧ Q * NO m n At * Q = Q := by
+  have hx' : (@solveX K (fieldScalar sq) (@factor K (fieldScalar sq) tol m n At bt o) (regList n o reg) stol).map
+      (fun gx => @vecOf K n fun j => @vget K (fieldScalar sq) gx.2 (o.invp.getD j 0)) = .ok x := hx
+  cases hs : @solveX K (fieldScalar sq) (@factor K (fieldScalar sq) tol m n At bt o) (regList n o reg) stol with
+  | error e => rw [hs] at hx'; cases hx'
+  | ok gx =>
+    obtain ⟨G, xn⟩ := gx
+    obtain ⟨-, hker⟩ := solveX_cols sq tol stol m n At bt o hsq hU htol hstol hSlt hs
+    obtain ⟨p1, p2, p3⟩ := QsO_props sq tol m n At bt o hO hU (S := regList n o reg) hker
+    exact ⟨QsO sq tol m n At bt o hO (regList n o reg) G,
+      fun i j => envCore_qxx_singular sq tol stol m n A b At bt reg o hO hd hs i j, p1, p2, p3⟩
+
+/-- **C03 (envelope), `q0_xx` for every unambiguous system**: the cofactors of the particular
+    solution, for ALL index pairs, form a symmetric reflexive g-inverse `Q0` of `N`
+    (`Q0 = L⁻ᵀD⁺L⁻¹` read through the ordering) -/
+theorem C03_envelope_q0xx (tol stol : K) (m n : ℕ) (A : DMat K) (b : Array K) (At : DMat K)
+    (bt : Array K) (reg : Reg) (o : EnvOrd) (hO : OrdOK n o) (hU : FactUnambiguous sq tol m n At bt o) :
+    ∃ Q0 : Matrix (Fin n) (Fin n) K,
+      (∀ i j : Fin n, (@envCore K (fieldScalar sq) tol stol m n A b At bt reg o).q0xx (i + 1) (j + 1) = .ok (Q0 i j))
+      ∧ Q0ᵀ = Q0 ∧ NO m n At * Q0 * NO m n At = NO m n At ∧ Q0 * NO m n At * Q0 = Q0 := by
+  obtain ⟨p1, p2, p3⟩ := Q0O_props sq tol m n At bt o hO hU
+  exact ⟨Q0O sq tol m n At bt o hO, fun i j => envCore_q0xx sq tol stol m n A b At bt reg o hO i j, p1, p2, p3⟩
+
+/-- **C03 (envelope), `q_bb` for every unambiguous system, regular or singular**: `q_bb(i,j)` is
+    the `(i,j)` entry of `Π = Ã Q Ãᵀ` for EVERY generalised inverse `Q` of `N = ÃᵀÃ` (in
+    particular the `Q` of `q_xx`); `Π` is a symmetric projector, its diagonal lies in `[0,1]`, and
+    the redundancy numbers sum to `m − n + defect` -/
+theorem C03_envelope_qbb_projector (tol stol : K) (m n : ℕ) (A : DMat K) (b : Array K) (At : DMat K)
+    (bt : Array K) (reg : Reg) (o : EnvOrd) (hO : OrdOK n o) (hU : FactUnambiguous sq tol m n At bt o)
+    (htol : 0 < tol) (Q : Matrix (Fin n) (Fin n) K) (hQ : NO m n At * Q * NO m n At = NO m n At) :
+    (∀ i j : Fin m, (@envCore K (fieldScalar sq) tol stol m n A b At bt reg o).qbb (i + 1) (j + 1)
+        = .ok ((toMatrix m n At * Q * (toMatrix m n At)ᵀ) i j))
+    ∧ (toMatrix m n At * Q * (toMatrix m n At)ᵀ)ᵀ = toMatrix m n At * Q * (toMatrix m n At)ᵀ
+    ∧ (toMatrix m n At * Q * (toMatrix m n At)ᵀ) * (toMatrix m n At * Q * (toMatrix m n At)ᵀ)
+        = toMatrix m n At * Q * (toMatrix m n At)ᵀ
+    ∧ (∀ i, 0 ≤ (toMatrix m n At * Q * (toMatrix m n At)ᵀ) i i ∧ (toMatrix m n At * Q * (toMatrix m n At)ᵀ) i i ≤ 1)
+    ∧ ∑ i, (1 - (toMatrix m n At * Q * (toMatrix m n At)ᵀ) i i)
+        = (m : K) - n + (@envCore K (fieldScalar sq) tol stol m n A b At bt reg o).defect := by
+  have h0 := Q0O_ginv sq tol m n At bt o hO hU
+  have hone : ∀ X : Matrix (Fin n) (Fin n) K, NO m n At * X * NO m n At = NO m n At →
+      ((toMatrix m n At)ᵀ * (1 : Matrix (Fin m) (Fin m) K) * toMatrix m n At) * X
+        * ((toMatrix m n At)ᵀ * (1 : Matrix (Fin m) (Fin m) K) * toMatrix m n At)
+        = (toMatrix m n At)ᵀ * (1 : Matrix (Fin m) (Fin m) K) * toMatrix m n At := by
+    intro X hX; simpa only [Matrix.mul_one, NO] using hX
+  have hinv : toMatrix m n At * Q0O sq tol m n At bt o hO * (toMatrix m n At)ᵀ
+      = toMatrix m n At * Q * (toMatrix m n At)ᵀ :=
+    aqat_invariant one_symm one_pd (hone _ h0) (hone _ hQ)
+  have hQ' : ((toMatrix m n At)ᵀ * toMatrix m n At) * Q * ((toMatrix m n At)ᵀ * toMatrix m n At)
+      = (toMatrix m n At)ᵀ * toMatrix m n At := hQ
+  have hs := hat_symm' hQ'
+  have hi := hat_idempotent' hQ'
+  refine ⟨fun i j => ?_, hs, hi, fun i => ⟨symm_idem_diag_nonneg hs hi i, symm_idem_diag_le_one hs hi i⟩, ?_⟩
+  · rw [← hinv]; exact envCore_qbb sq tol stol m n A b At bt reg o hO i j
+  · rw [redundancy_sum hQ']
+    have hr := rank_add_defect sq tol m n At bt o hU htol
+    rw [ApM_eq_submatrix sq tol m n At bt o hO] at hr
+    have e : ((toMatrix m n At).submatrix id hO.equiv).rank = (toMatrix m n At).rank :=
+      Matrix.rank_submatrix (toMatrix m n At) (Equiv.refl _) hO.equiv
+    rw [e] at hr
+    have hd : (@envCore K (fieldScalar sq) tol stol m n A b At bt reg o).defect
+        = @defectOf K (@factor K (fieldScalar sq) tol m n At bt o).rows := rfl
+    rw [hd]
+    have hn : ((toMatrix m n At).rank : K) + (@defectOf K (@factor K (fieldScalar sq) tol m n At bt o).rows : K)
+        = (n : K) := by exact_mod_cast hr
+    simp only [Fintype.card_fin]
+    linarith
 
 /-! ### non-vacuity -/
 
@@ -93,5 +165,17 @@ example : OrdOK 2 Ex.ro ∧ (0 : ℚ) < 1/2
     ∧ ((@envCore ℚ (fieldScalar id) (1/2) (1/2) 3 2 Ex.rA Ex.rb Ex.rA Ex.rb .all Ex.ro).qxx 1 2).toOption = some (-1/3)
     ∧ ((@envCore ℚ (fieldScalar id) (1/2) (1/2) 3 2 Ex.rA Ex.rb Ex.rA Ex.rb .all Ex.ro).qbb 2 2).toOption = some (2/3) :=
   ⟨Ex.ro_ok, by norm_num, by decide +kernel, by decide +kernel, by decide +kernel, by decide +kernel⟩
+
+/-- the dense restatement of `Envelope::inverse` (`Env.zEntry`) and the full-inverse column
+    (`Env.q0`) agree on every index pair of a regular and of a singular instance (a test, not a
+    theorem: the general equality is MODELLED, see `Model/Ls/Env.lean`) -/
+example :
+    (List.range 2).all (fun i => (List.range 2).all fun j =>
+      @zEntry ℚ (fieldScalar id) (@factor ℚ (fieldScalar id) (1/2) 3 2 Ex.rA Ex.rb Ex.ro).rows 2 i j
+        == @q0 ℚ (fieldScalar id) (@factor ℚ (fieldScalar id) (1/2) 3 2 Ex.rA Ex.rb Ex.ro).rows 2 i j) = true
+    ∧ (List.range 4).all (fun i => (List.range 4).all fun j =>
+      @zEntry ℚ (fieldScalar id) (@factor ℚ (fieldScalar id) (1/2) 2 4 Ex.wA Ex.wb Ex.wo).rows 4 i j
+        == @q0 ℚ (fieldScalar id) (@factor ℚ (fieldScalar id) (1/2) 2 4 Ex.wA Ex.wb Ex.wo).rows 4 i j) = true := by
+  decide +kernel
 
 end Gama.Props.C03
